@@ -18,6 +18,7 @@ SEEDS = [
     "{Phospho}[Formula:C2H4]?[Acetyl]-PE[Phospho]PKTIDEK/2[+2Na+]",
     "PEPKTIDEK",
     "<[Oxidation]@M>[1]-MEPKTM[Methyl]DEK-[2]/3",
+    "[XLMOD:01000]-PEP(TI)[Phospho][1.5]DEK[X:DSS]",
 ]
 
 
@@ -56,12 +57,29 @@ def cstr(x):
 
 def glob_state(pp):
     from peptacular.mods import mod_db_setup as m
-    return {"rng": hashlib.sha1(repr(random.getstate()).encode()).hexdigest()[:16],
-            "voc": [len(m.UNIMOD_DB), len(m.PSI_MOD_DB), len(m.XLMOD_DB), len(m.MONOSACCHARIDES_DB)]}
+    voc = []
+    for d in (m.UNIMOD_DB, m.PSI_MOD_DB, m.XLMOD_DB, m.MONOSACCHARIDES_DB):
+        tot, none = 0.0, 0
+        for x in d.id_map.values():      # digest of every entry's stored masses (the fields lookups may cache into)
+            a, b = x.mono_mass, x.avg_mass
+            if a is None:
+                none += 1
+            else:
+                tot += a
+            if b is None:
+                none += 1
+            else:
+                tot += 3 * b
+        voc.append([len(d), repr(round(tot, 6)), none])
+    return {"rng": hashlib.sha1(repr(random.getstate()).encode()).hexdigest()[:16], "voc": voc}
 
 
 def snapshot(pp, a, aux):
-    return {"obj": {"ann": project.ann(a), "has": project.has_bits(a)}, "aux": cstr(aux), "glob": glob_state(pp)}
+    # "text": the object's own serialisation (observes the ORDER of modification lists, which the bag-valued
+    # projection deliberately forgets); the exception class if it cannot be written
+    o, t = call(a.serialize)
+    return {"obj": {"ann": project.ann(a), "has": project.has_bits(a), "text": t if o == "ret" else o},
+            "aux": cstr(aux), "glob": glob_state(pp)}
 
 
 def rebuild(pp, a):
@@ -97,6 +115,47 @@ def edit_result(pp, r):
         r.val = "EDITED"
 
 
+_REF = {}
+
+
+def reference_results():
+    """Every query on every seed annotation (and the text-only queries) evaluated in ONE fresh interpreter, text-only
+    queries first: {seed text or "": {call: canonical result}}.  Facts only; Trace_Session compares."""
+    import subprocess
+    import sys
+    import os
+    import peptacular
+    src = os.path.dirname(os.path.dirname(os.path.abspath(peptacular.__file__)))
+    code = ("import sys, json, warnings; sys.path[:0] = %r; warnings.simplefilter('ignore')\n"
+            "from harness.drivers import c08; print('REF' + json.dumps(c08._reference()))" % ([str(core.VERIF), src],))
+    p = subprocess.run([sys.executable, "-c", code], capture_output=True, text=True, cwd=str(core.VERIF), timeout=600)
+    line = [ln for ln in p.stdout.splitlines() if ln.startswith("REF")]
+    if p.returncode != 0 or not line:
+        core.die_machinery("reference interpreter failed: " + p.stderr[-2000:])
+    return json.loads(line[-1][3:])
+
+
+def _reference():
+    import peptacular as pp
+    table = calls.table()
+    ref = {"": {}}
+    random.seed(4242)
+    order = sorted(table, key=lambda n: (not n.startswith("t_"), n))
+    for text in [""] + SEEDS:
+        ref.setdefault(text, {})
+        for name in order:
+            cls, fn = table[name]
+            if cls != "Q" or (text == "") != name.startswith("t_"):
+                continue
+            random.seed(4242)
+            a, aux = pp.parse(text or "PEK"), calls.aux(pp)
+            o, r = call(lambda: fn(pp, a, aux))
+            if o == "ret" and (isinstance(r, types.GeneratorType) or hasattr(r, "__next__")):
+                o, r = call(lambda: list(r))
+            ref[text][name] = cstr(r) if o == "ret" else o
+    return ref
+
+
 def run_history(pp, table, text, names, hid):
     random.seed(4242)
     a = pp.parse(text)
@@ -123,7 +182,13 @@ def run_history(pp, table, text, names, hid):
         if o == "ret" and cls == "Q":
             call(lambda: edit_result(pp, r))
         edited = snapshot(pp, a, aux)
+        ref = ""
+        if cls == "Q" and name.startswith("t_"):
+            ref = _REF.get("", {}).get(name, "")
+        elif cls == "Q" and step == 1:
+            ref = _REF.get(text, {}).get(name, "")
         ev = {"tid": f"{hid}.{step}", "hid": hid, "step": step, "call": name, "cls": cls, "history": list(names), "seed": text,
+              "ref": ref,
               "post": post, "edited": edited, "res": res if cls == "Q" else "", "fresh": fresh if cls == "Q" else "", "out": o}
         if step == 1:
             ev["pre"] = pre
@@ -131,35 +196,60 @@ def run_history(pp, table, text, names, hid):
     return evs
 
 
+def _job(args):
+    import peptacular as pp
+    warnings.simplefilter("ignore")
+    return run_history(pp, calls.table(), *args)
+
+
 def run(tier, seed, rep):
     warnings.simplefilter("ignore")
     import peptacular as pp
     rnd = random.Random(seed)
     thorough = tier == "thorough"
-    r = core.model_check("MC_Session", "MC_Session.cfg", workers=8)
+    out = core.workdir() / "c08_behaviours.ndjson"
+    r = core.model_check("MC_Session", "MC_Session.cfg", env={"OUT_FILE": str(out)}, workers=8)
     rep.add_mc("MC_Session (the session machine: queries are stuttering steps, editor effects, history freedom)", r)
     table = calls.table()
     names = list(table)
     saved = random.getstate()
-    evs = []
+    jobs = []
     hid = 0
-    seeds = SEEDS if thorough else SEEDS[:2]
+    # stage B: the behaviours of the model (16 seed annotations x 12 calls ^ 3), stepped through the real library
+    behaviours = [json.loads(line) for line in open(out) if line.strip()]
+    if not thorough:
+        behaviours = rnd.sample(behaviours, 600)
+    for b in behaviours:
+        jobs.append((b["seed"], list(b["hist"]), f"b{hid}"))
+        hid += 1
+    nb = hid
+    # the same query before and after any other call: [q, x, q]
+    queries = [n for n in names if table[n][0] == "Q"]
+    for q in (queries if thorough else rnd.sample(queries, 40)):
+        for x in (names if thorough else rnd.sample(names, 12)):
+            jobs.append((rnd.choice(SEEDS), [q, x, q], f"r{hid}"))
+            hid += 1
+    seeds = SEEDS if thorough else [SEEDS[0], SEEDS[1], SEEDS[4]]
     for text in seeds:
         for first in names:
-            seconds = names if thorough else rnd.sample(names, 14)
+            seconds = names if thorough else rnd.sample(names, 10)
             for second in seconds:
-                evs.extend(run_history(pp, table, text, [first, second], f"h{hid}"))
+                jobs.append((text, [first, second], f"h{hid}"))
                 hid += 1
     for _ in range(20000 if thorough else 700):
-        evs.extend(run_history(pp, table, rnd.choice(SEEDS), [rnd.choice(names) for _ in range(3)], f"t{hid}"))
+        jobs.append((rnd.choice(SEEDS), [rnd.choice(names) for _ in range(3)], f"t{hid}"))
         hid += 1
+    _REF.clear()
+    _REF.update(reference_results())       # before the pool forks: the workers inherit it
+    evs = [e for lst in core.pmap(_job, jobs) for e in lst]
     random.setstate(saved)
     # keep histories together: shard by history
     res = core.validate_traces("Trace_Session", evs, "C08", min_per_shard=300, by="hid")
     rep.add_trace("histories", evs, res, traces=hid,
                   sig=lambda e: (e["call"], e["step"], tuple(e["history"][:e["step"] - 1])[-1:] if e["step"] > 1 else (), e["seed"][:12]))
     return rep.finish(rule=f"{len(names)} public calls ({sum(1 for n in names if table[n][0] == 'Q')} queries, "
-                           f"{sum(1 for n in names if table[n][0] == 'E')} editors) on one shared object: ordered pairs "
+                           f"{sum(1 for n in names if table[n][0] == 'E')} editors) on one shared object: the behaviours "
+                           "emitted by TLC from MC_Session (16 seed annotations x 12 calls ^ 3; quick: 600 sampled); ordered pairs "
                            "(thorough: all pairs x 4 seed annotations; quick: every first call x 14 sampled second calls x 2 "
                            "seeds) and random triples; every step logs the projected state of the object, the auxiliary "
                            "containers and process-wide state, the result, the result on a fresh object and the state after "
